@@ -482,17 +482,39 @@ def get_defaults(fn, key):
 
 def siblings(ctx, mod, fns, I):
     save, read, val, hdr = fns["save_scsv"], fns["read_scsv"], fns["_validate_scsv_schema"], fns["write_scsv_header"]
+
+    class Closure:
+        """a function together with the private helpers of pydrex.io it (transitively) calls, except the other three entry points: what is
+        asked of `save_scsv` may be done in a helper it shares with `read_scsv`"""
+        def __init__(self, name):
+            others = {"save_scsv", "read_scsv", "_validate_scsv_schema", "write_scsv_header"} - {name}
+            reach = flow.reachable_functions(ctx.program, [("pydrex.io", name)])
+            self.nodes = [nd for (mn, fn_), (_, nd) in reach.items() if mn == "pydrex.io" and fn_ not in others]
+            self.lineno = fns[name].lineno
+
+    def walk_all(f):
+        for nd in (f.nodes if isinstance(f, Closure) else [f]):
+            yield from ast.walk(nd)
+    save_c, read_c, val_c, hdr_c = Closure("save_scsv"), Closure("read_scsv"), Closure("_validate_scsv_schema"), Closure("write_scsv_header")
+
+    def get_defaults_c(f, key):
+        out = []
+        for c in walk_all(f):
+            if isinstance(c, ast.Call) and isinstance(c.func, ast.Attribute) and c.func.attr == "get" and c.args and \
+                    isinstance(c.args[0], ast.Constant) and c.args[0].value == key:
+                out.append(ast.unparse(c.args[1]) if len(c.args) > 1 else "None")
+        return out
     for key in ("fill", "type"):
-        d = {nm: set(get_defaults(f, key)) for nm, f in (("save_scsv", save), ("read_scsv", read), ("write_scsv_header", hdr), ("_validate_scsv_schema", val))}
+        d = {nm: set(get_defaults_c(f, key)) for nm, f in (("save_scsv", save_c), ("read_scsv", read_c), ("write_scsv_header", hdr_c), ("_validate_scsv_schema", val_c))}
         used = {nm: v for nm, v in d.items() if v}
         allv = set().union(*used.values()) if used else set()
         ctx.ob("C16.siblings", f"default for '{key}' agrees across writer, reader and validator", len(allv) == 1 and "save_scsv" in used and "read_scsv" in used,
                f"defaults used: {used}", L(mod, save, ctx))
     def missing_uses(fn):
-        return [ast.unparse(n) for n in ast.walk(fn) if isinstance(n, ast.Subscript) and isinstance(n.slice, ast.Constant) and n.slice.value == "missing"]
-    ctx.ob("C16.siblings", "missing marker read from schema['missing'] on both sides", bool(missing_uses(save)) and bool(missing_uses(read)), "", L(mod, read, ctx))
-    tm_s = any(isinstance(n, ast.Subscript) and flow.dotted(n.value) == "SCSV_TYPEMAP" for n in ast.walk(save))
-    tm_r = any(isinstance(n, ast.Subscript) and flow.dotted(n.value) == "SCSV_TYPEMAP" for n in ast.walk(read))
+        return [ast.unparse(n) for n in walk_all(fn) if isinstance(n, ast.Subscript) and isinstance(n.slice, ast.Constant) and n.slice.value == "missing"]
+    ctx.ob("C16.siblings", "missing marker read from schema['missing'] on both sides", bool(missing_uses(save_c)) and bool(missing_uses(read_c)), "", L(mod, read, ctx))
+    tm_s = any(isinstance(n, ast.Subscript) and flow.dotted(n.value) == "SCSV_TYPEMAP" for n in walk_all(save_c))
+    tm_r = any(isinstance(n, ast.Subscript) and flow.dotted(n.value) == "SCSV_TYPEMAP" for n in walk_all(read_c))
     ctx.ob("C16.siblings", "one type table (SCSV_TYPEMAP) on both sides", tm_s and tm_r, "", L(mod, save, ctx))
     typemap = I.resolve("pydrex.io.SCSV_TYPEMAP")
     terse = I.resolve("pydrex.io.SCSV_TERSEMAP")
@@ -503,7 +525,7 @@ def siblings(ctx, mod, fns, I):
     # keys
     def const_keys(fn):
         ks = set()
-        for n in ast.walk(fn):
+        for n in walk_all(fn):
             if isinstance(n, ast.Subscript) and isinstance(n.slice, ast.Constant) and isinstance(n.slice.value, str):
                 ks.add(n.slice.value)
             if isinstance(n, ast.Call) and isinstance(n.func, ast.Attribute) and n.func.attr == "get" and n.args and isinstance(n.args[0], ast.Constant):
@@ -515,7 +537,7 @@ def siblings(ctx, mod, fns, I):
     import re
     lines = [ln for ln in text.split("\n")] if isinstance(text, str) else []
     written = {m.group(1) for ln in lines for m in [re.match(r"^\s*(?:-\s*)?(\w+):", ln)] if m}
-    read_keys = (const_keys(read) | const_keys(val)) - {"schema"}
+    read_keys = (const_keys(read_c) | const_keys(val_c)) - {"schema"}
     ctx.ob("C16.siblings", "header keys written ⊇ schema keys read", isinstance(text, str) and read_keys <= written,
            f"read {sorted(read_keys)}, written {sorted(written)}" if isinstance(text, str) else f"header writer could not be interpreted: {text!r}", L(mod, hdr, ctx))
     # frame markers: the emitted header opens and closes the YAML block with the marker line the reader splits on
